@@ -49,6 +49,7 @@ type cgMember struct {
 	closed     bool
 	nextErrs   []error
 	afterClose error
+	topics     []string
 }
 
 func cgroupScenario(s *Sim, params map[string]string) {
@@ -64,7 +65,14 @@ func cgroupScenario(s *Sim, params map[string]string) {
 		b.Versions[3] = [2]int16{0, Pick(t, "cfg", int16(8), 6, 1)}
 	}
 	top := cl.AddTopic("ct", t.Range("cfg", 1, 4), func(int) int32 { return int32(1 + t.Intn("cfg", nb)) })
+	cl.AddTopic("cu", t.Range("cfg", 1, 3), func(int) int32 { return int32(1 + t.Intn("cfg", nb)) })
 	g := cl.group("cgrp")
+	installAssignmentMonitor(s, cl)
+	// members may subscribe to different topic sets (a rolling deploy that
+	// adds a topic): whoever is elected leader assigns the partitions of every
+	// topic any member subscribes to
+	hetero := t.Intn("cfg", 2) == 0
+	balancer := []kafka.GroupBalancer{kafka.RangeGroupBalancer{}, kafka.RoundRobinGroupBalancer{}, kafka.RackAffinityGroupBalancer{Rack: "r1"}}[t.Intn("cfg", 3)]
 
 	fmode := t.Intn("cfg", 4)
 	if v, ok := params["faults"]; ok {
@@ -104,11 +112,11 @@ func cgroupScenario(s *Sim, params map[string]string) {
 				return // closed before it ever started
 			}
 			cg, err := kafka.NewConsumerGroup(kafka.ConsumerGroupConfig{
-				ID: "cgrp", Brokers: []string{cl.Brokers[0].Addr()}, Topics: []string{"ct"},
+				ID: "cgrp", Brokers: []string{cl.Brokers[0].Addr()}, Topics: m.topics,
 				Dialer:            &kafka.Dialer{DialFunc: n.Dialer(m.clientID), ClientID: m.clientID, Timeout: 3 * time.Second},
 				HeartbeatInterval: hb, SessionTimeout: session, RebalanceTimeout: rebalance, JoinGroupBackoff: backoff, Timeout: timeout,
 				WatchPartitionChanges: watch, PartitionWatchInterval: watchIvl,
-				GroupBalancers: []kafka.GroupBalancer{kafka.RangeGroupBalancer{}},
+				GroupBalancers: []kafka.GroupBalancer{balancer},
 			})
 			if err != nil {
 				s.Fail("SIM", "cgroup-config", "%v", err)
@@ -208,7 +216,10 @@ func cgroupScenario(s *Sim, params map[string]string) {
 		})
 	}
 	for k := 0; k < nmem; k++ {
-		m := &cgMember{k: k, clientID: fmt.Sprintf("cg%d", k)}
+		m := &cgMember{k: k, clientID: fmt.Sprintf("cg%d", k), topics: []string{"ct"}}
+		if hetero {
+			m.topics = [][]string{{"ct"}, {"ct", "cu"}, {"cu", "ct"}, {"ct"}}[t.Intn("cfg", 4)]
+		}
 		members = append(members, m)
 		d := time.Duration(0)
 		if k > 0 {
